@@ -535,5 +535,27 @@ def r15_13(ctx):
     ctx.ok("kconfserver.core/exception handlers examined for attribute reads", "", nontrivial=False)
 
 
+def r15_14(ctx):
+    """R15.14 only `null` means `the current file`: the defaulting of the `load` / `save` file name in run_server() tests `is None` -
+    an empty string, false, 0 or [] is a (bad) file name and must come back as `Failed to load/save`, not silently reload or
+    overwrite the server's own sdkconfig."""
+    repo = ctx.repo
+    f = repo.func("kconfserver.core:run_server")
+    ctx.analysed(f.qual)
+    fl = Flow(f.node, resolver=Resolver(f.node)).run()
+    n = 0
+    for st in ast.walk(f.node):
+        if isinstance(st, ast.Assign) and len(st.targets) == 1 and ast.unparse(st.targets[0]).replace('"', "'") in ("req['load']", "req['save']"):
+            key = ast.unparse(st.targets[0]).replace('"', "'")
+            n += 1
+            construct = f"run_server/{key} defaults to the current path only for null"
+            gs = {(k.replace('"', "'"), p) for k, p in (fl.guards_at(st) or set())}
+            (ctx.ok(construct, f.loc(st)) if (f"{key} is None", True) in gs else
+             ctx.bad(construct, f"the default path is substituted under {sorted(g for g in gs if key in g[0])}: a falsy file name that is not null is not reported "
+                     "as an unreadable / unwritable file", f.loc(st)))
+    if n < 2:
+        raise AnalysisError(f"only {n} file-name defaultings found in run_server")
+
+
 def rules():
-    return [("R15.13", r15_13, 1), ("R15.12", r15_12, 8), ("R15.11", r15_11, 1), ("R15.10", r15_10, 2), ("R15.9", r15_9, 4), ("R15.7", r15_7, 1), ("R15.1", r15_1, 4), ("R15.2", r15_2, 2), ("R15.3", r15_3, 3), ("R15.4", r15_4, 2), ("R15.5", r15_5, 3), ("R15.6", r15_6, 2), ("R15.8", r15_8, 6)]
+    return [("R15.14", r15_14, 2), ("R15.13", r15_13, 1), ("R15.12", r15_12, 8), ("R15.11", r15_11, 1), ("R15.10", r15_10, 2), ("R15.9", r15_9, 4), ("R15.7", r15_7, 1), ("R15.1", r15_1, 4), ("R15.2", r15_2, 2), ("R15.3", r15_3, 3), ("R15.4", r15_4, 2), ("R15.5", r15_5, 3), ("R15.6", r15_6, 2), ("R15.8", r15_8, 6)]
